@@ -67,3 +67,8 @@ Example c01_nonvacuous :
   let s := run (init 1 true ex_ths) ex_sched in
   quiescent s = true /\ concat (tlog s) = accepted s /\ length (accepted s) = 4.
 Proof. vm_compute. repeat split; reflexivity. Qed.
+
+(* the sender's batch capacity in the machine is the expression in the source NOW (Gen/Consts.v) *)
+From GN Require Import Gen.Consts Proof.Consts_ok.
+Theorem c01_batch_capacity_is_source : forall s, batch_cap s = batch_cap_src (qcap s).
+Proof. exact batch_cap_is_source. Qed.
